@@ -21,13 +21,13 @@ CHECKS = {
    text="TLC explores every abstract file reachable within k adversary edits from two authentic files (13 edit actions incl. cross-file splices, header swaps, truncation in every field class, appends) and checks AcceptMeansComplete / ReleasedIsAuthenticPrefix on the decryptor model; each explored file is concretised from specification-built records and given to the real decryptor (hooked loop, key_decrypt, pass_decrypt), and the verdict is compared with the contract's three-valued class computed in TLA+ from the abstract file (AFile!Class) during trace validation. Every single-bit flip and every proper prefix of complete files is added.",
    note="Soundness of 'splice fails' rests on the AEAD assumption (C19) and on distinct files having distinct keys (C07). Edits are bounded (2 quick, 3 thorough); bit positions within large bodies are sampled."),
  "C04": dict(engine="stream", design_ref="DESIGN.md 6 C04",
-   text="The invariant ReleasedIsAuthenticPrefix is model-checked in every state of DecLoop under every schedule and single fault; the real decryptor's write calls (bytes, offset, ciphertext consumed so far) are recorded for authentic and adversarial files under enumerated schedules and fault points and validated against D1 (no write beyond the plaintext of records authentic in position and completely consumed; bytes equal the authentic plaintext), D2 (success only after a final record and end of data), D5 (whole chunks). The adversary includes forged records. Thorough tier: the same predicates on the system-call sequence of the real binary (strace converted to the same event format), and an Apalache-discharged inductive invariant of the integer projection DecLoopInd for any number of chunks. Every tier: TLC checks that each step of DecLoop is a step of DecLoopInd (action property RefinesDecLoopInd).",
+   text="The invariant ReleasedIsAuthenticPrefix is model-checked in every state of DecLoop under every schedule and single fault; the real decryptor's write calls (bytes, offset, ciphertext consumed so far) are recorded for authentic and adversarial files under enumerated schedules and fault points and validated against D1 (no write beyond the plaintext of records authentic in position and completely consumed; bytes equal the authentic plaintext), D2 (success only after a final record and end of data), D5 (whole chunks). The adversary includes forged records. Thorough tier: the same predicates on the system-call sequence of the real binary (strace converted to the same event format), and an Apalache-discharged inductive invariant of the integer projection DecLoopInd for any number of chunks. Every tier: TLC checks that each step of DecLoop is a step of DecLoopInd (action property RefinesDecLoopInd). At the tool: kestrel decrypt / password decrypt never exit 0 for a damaged or extended file, a full device or a reader that has gone away (CliContract causes, Trace_Cli).",
    note="'No byte before the chunk verifies' is observed at the Write boundary: no byte of a chunk that does not verify, and none before its tag has been read."),
  "C10": dict(engine="stream", design_ref="DESIGN.md 6 C10",
-   text="FaultSurfaces is model-checked on EncLoop/DecLoop for every schedule and every position of a fault of each kind; every enumerated (schedule, fault position, kind) is replayed through scripted Read/Write objects on the hooked loops and on the four public functions, and the traces are validated against E2/E3/D3/D4: the error names the failing side, success after a fault only for a retried Interrupted, accepted bytes are a prefix of the same implementation's fault-free run, never a panic or a spin.",
+   text="FaultSurfaces is model-checked on EncLoop/DecLoop for every schedule and every position of a fault of each kind; every enumerated (schedule, fault position, kind) is replayed through scripted Read/Write objects on the hooked loops and on the four public functions, and the traces are validated against E2/E3/D3/D4: the error names the failing side, success after a fault only for a retried Interrupted, accepted bytes are a prefix of the same implementation's fault-free run, never a panic or a spin. At the tool: every command ends with exit 1 and an error line when the output cannot be written (full device, missing directory, closed pipe) or the input cannot be read (CliContract causes stdout_closed, stdout_full, output_device_full, output_dir_missing, input_read_error).",
    note="One fault per run in the quick tier (two in the model check of the thorough tier). Faults are injected only at the Read/Write boundary."),
  "C11": dict(engine="stream", design_ref="DESIGN.md 6 C11, 7",
-   text="The Lag invariant (a chunk is out before more than two further chunks are in) is model-checked on both loops; recorded traces carry per event the peak live heap of the code under test and the consumed/covered byte counts and are validated against E4/E5/D7/D8 on inputs from 0 B to tens of MiB (thorough: 1 GB) that are never held in memory. Every tier: TLC checks that each step of EncLoop is a step of the integer projection EncLoopInd (RefinesEncLoopInd). Thorough tier: Lag for any number of chunks by Apalache on EncLoopInd, and peak RSS of the real binary on a 512 MiB file vs a 1 MiB file.",
+   text="The Lag invariant (a chunk is out before more than two further chunks are in) is model-checked on both loops; recorded traces carry per event the peak live heap of the code under test and the consumed/covered byte counts and are validated against E4/E5/D7/D8 on inputs from 0 B to tens of MiB (thorough: 1 GB) that are never held in memory. Every tier: TLC checks that each step of EncLoop is a step of the integer projection EncLoopInd (RefinesEncLoopInd). Thorough tier: Lag for any number of chunks by Apalache on EncLoopInd, and peak RSS of the real binary on a 512 MiB file vs a 1 MiB file. Every tier: the lag clause counted in chunks (AFile!Due) on the tool's own read/write system calls (strace) for files of many small chunks.",
    note="Peak memory is a monitored field of the trace with a generous constant bound (8*CS + 1 MiB, + 34 MiB while scrypt runs): TLC does not derive memory use from the model. Only heap allocations are observed."),
  "C05": dict(engine="noise", design_ref="DESIGN.md 6 C05",
    text="TLC decides all 4608 combinations of {private key sealing, public key claimed incl. low-order, recipient addressed incl. low-order, ephemeral used / claimed incl. another message's and low-order, decrypting key, recipient_public argument, field spliced from another authentic message} on the token-level Noise X model over symbolic terms (NoiseAdv.tla) against OnlyAddressed / SenderAuthentic / NoNullKey / RespectsClass; every combination is built with the real key_encrypt and with the specification's terms, fed to the real key_decrypt, and the outcome validated against the declarative classification C05Contract by TLC (Trace_Noise); all 14 concrete low-order / non-canonical encodings are used. At the tool: kestrel decrypt with keyrings of 400+ entries in which the sender's entry is first, last or absent; the reported name or 'Unknown key' encoding must be the authenticated key's (Trace_Cli).",
@@ -42,7 +42,7 @@ CHECKS = {
    text="NoIdentityInClear / ClearIndependentOfIdentity are checked by TLC on all NoiseAdv scenarios and the size formula on every EncLoop schedule; real outputs of library and CLI for pairs of encryptions differing only in identities are compared on the cleartext positions, against 132|36 + 32*records + plaintext, and searched for every encoding of both public keys and of long random keyring names (Trace_Noise, event 'clear').",
    note="AEAD ciphertext is treated as opaque. Identity search covers raw, hex, base64 and keyring encodings only."),
  "C09": dict(engine="cli", design_ref="DESIGN.md 6 C09",
-   text="Totality of the decoders is a model-level fact (DecLoop: Termination under fairness, BoundedRequest with hostile length fields, every adversarial file ends in ok or a named error); conformance: TLC enumerates input shapes per surface (Shapes.tla) and argument vectors (Argv.tla); every shape is instantiated with all lengths 0..N and all lengths around every field boundary and pushed through key_decrypt, pass_decrypt, the chunk loop, noise_decrypt, chapoly_decrypt_ietf, valid_file_format, EncodedPk/EncodedSk + decode/unlock and Keyring::new under catch_unwind with a counting allocator; every argument vector up to k words is run with the real binary; TLC validates exit status in {0,1}, 'Error:' iff 1, no panic/abort/hang, heap within a per-surface constant.",
+   text="Totality of the decoders is a model-level fact (DecLoop: Termination under fairness, BoundedRequest with hostile length fields, every adversarial file ends in ok or a named error); conformance: TLC enumerates input shapes per surface (Shapes.tla) and argument vectors (Argv.tla); every shape is instantiated with all lengths 0..N and all lengths around every field boundary and pushed through key_decrypt, pass_decrypt, the chunk loop, noise_decrypt, chapoly_decrypt_ietf, valid_file_format, EncodedPk/EncodedSk + decode/unlock and Keyring::new under catch_unwind with a counting allocator; every argument vector up to k words is run with the real binary; TLC validates exit status in {0,1}, 'Error:' iff 1, no panic/abort/hang, heap within a per-surface constant. Every token sequence of Keyring.tla up to 5 lines is rendered and parsed as well (structured keyring texts).",
    note="Exhaustive only in the lengths and vocabulary stated in the evidence; random bytes beyond. Built with overflow checks and debug assertions on (the profile the repository's tests use). Hang = 30 s watchdog."),
  "C12": dict(engine="cli", design_ref="DESIGN.md 6 C12",
    text="Cli.tla models every command as the ordered list of steps the code performs, each failing for the causes C13 lists; TLC checks ExitTruthful / MatchesContract for the full product of wirings and emits the configurations; each is materialised from specification-built keys, keyrings and ciphertexts, run with the real binary, and exit status, 'Error:' line, output bytes and the 'File from' / 'Unknown key' line are validated by TLC against CliContract!Expected, which sees only the abstract request (so equal requests must give equal outcomes whatever the wiring). Also: successful runs onto a longer pre-existing output, outputs that cannot be written (missing directory, /dev/full as file or stdout), and the interactive password paths on a pseudo-terminal (Prompt.tla: typed scripts of right / wrong / mismatching passwords ended by Ctrl-C).",
@@ -71,7 +71,7 @@ CHECKS = {
    note="The leaves (SHA-256 compression, ChaCha20, Poly1305, X25519 ladder) are orion code; their RFC conformance is only sampled by the supplementary vectors.",
    technique="TLA+ axioms/structural terms + TLC case enumeration replayed on the exported primitives; leaf RFC equality by reference vectors (supplementary)"),
  "C20": dict(engine="prims", design_ref="DESIGN.md 6 C20, 7",
-   text="Erase.tla enumerates every construct / clone / drop program up to n steps over 3 slots and all constructors with the invariants ErasedAtRelease and LiveUntouched; each program is executed on the real PrivateKey / PayloadKey values with the secret's heap block registered in the harness allocator, which inspects the bytes at the moment the block is released; TLC validates that no block was released dirty, every block was released, and no live object changed.",
+   text="Erase.tla enumerates every construct / clone / drop program up to n steps over 3 slots and all constructors with the invariants ErasedAtRelease and LiveUntouched; each program is executed on the real PrivateKey / PayloadKey values with the secret's heap block registered in the harness allocator, which inspects the bytes at the moment the block is released; TLC validates that no block was released dirty, every block was released, and no live object changed. Erase.tla has holder counts, so clones that share one block released by the last holder are admitted (variant SharedLastWipes checked); programs include two handles dropped by two threads at once (deviation SharedRacy: a check-then-act race found by TLC), each such program executed 300 times on the real types.",
    note="The observation (bytes at dealloc) is a memory-level fact supplied by the harness allocator; only heap blocks are observed (PayloadKey is boxed by the harness)."),
 }
 
